@@ -13,6 +13,7 @@ CONSTANTS
   MaxTxs = 2
   AllowEvidence = FALSE
   AllowAbsent = FALSE
+  MaxChecks = 0
   AllowRestart = FALSE
   AllowNoProposer = TRUE
   KnownD8 = TRUE
